@@ -65,6 +65,13 @@ ORIG_EXPECT = [
     ("C14", "R14.12", "generate_commit_graph"), ("C16", "R16.12", "pack_refs"), ("C14", "R14.13", "pack_refs"), ("C13", "R13.10", "independent"),
     ("C13", "R13.11", "update_shallow"), ("C08", "R08.9", "locked_ref.__exit__"), ("C04", "R04.3", "_complete_pack"),
     ("C16", "R16.13", "set_symbolic_ref"), ("C16", "R16.13", "set_if_equals"), ("C16", "R16.13", "add_if_new"),
+    ("C19", "R19.11", "_parse_pkt_line_length"), ("C19", "R19.11", "extract_capabilities"), ("C19", "R19.11", "_handle_receive_pack_tail"),
+    ("C20", "R20.10", "has_section"), ("C20", "R20.10", "_parse_string"), ("C13", "R13.12", "find_octopus_base"), ("C13", "R13.12", "Walker.__init__"),
+    ("C13", "R13.12", "Walker._next"), ("C14", "R14.14", "_get_pack_info"), ("C16", "R16.14", "add_if_new"), ("C11", "R11.8", "write_cache_time"),
+    ("C11", "R11.8", "read_index_dict_with_version"), ("C04", "R04.14", "_decompress"), ("C10", "R10.12", "PackBasedObjectStore.__iter__"),
+    ("C06", "R06.9", "_apply_pack"), ("C06", "R06.9", "LocalGitClient.send_pack"), ("C07", "R07.5", "locked_index.__enter__"), ("C07", "R07.5", "locked_index.__exit__"),
+    ("C01", "R01.9", "author_timezone"), ("C17", "R17.11", "_remove_empty_parents"), ("C17", "R17.11", "_checked_worktree_path"), ("C17", "R17.11", "submodule_update"),
+    ("C02", "R02.9", "_walk_ref_chains"), ("C02", "R02.9", "pack_objects_to_data"), ("C03", "R03.6", "_resolve_object"), ("C15", "R15.4", "parse_tree"),
     ("C17", "R17.10", "apply_patches"), ("C17", "R17.10", "_apply_rename_or_copy"), ("C17", "R17.10", "apply_included_paths"),
     ("C14", "R14.6", "_combine_commit_bitmaps"), ("C14", "R14.6", "GraphTraversalReachability.get_reachable_objects"),
     ("C13", "R13.3", "_find_lcas"), ("C20", "R20.5", "_escape_value"), ("C06", "R06.5", "DiskRefsContainer.set_if_equals"),
